@@ -505,7 +505,7 @@ fn sample_json(case: &Case) -> serde_json::Value {
         .steps
         .iter()
         .map(|s| match s {
-            Step::Inv(i) => format!("cwd={} typstyle {} plan=[{}] readdir={}", i.cwd, i.argv("{ROOT}").join(" "), i.plan.iter().map(|r| r.render()).collect::<Vec<_>>().join(";"), i.readdir),
+            Step::Inv(i) => format!("cwd={} env={:?} typstyle {} plan=[{}] readdir={}", i.cwd, i.env, i.argv("{ROOT}").join(" "), i.plan.iter().map(|r| r.render()).collect::<Vec<_>>().join(";"), i.readdir),
             Step::Edit(Edit::Write { path, content }) => format!("edit: write {} ({} bytes)", path, content.0.len()),
             Step::Edit(Edit::Delete { path }) => format!("edit: delete {}", path),
         })
